@@ -69,7 +69,7 @@ def case_s(draw):
     respond = draw(st.sampled_from(["immediate", "immediate", "deferred", "never", "in_headers", "in_data"]))
     where = draw(st.sampled_from(["headers", "body", "body", "complete", "complete", "any"]))
     frac = draw(st.integers(0, 1000))
-    event = draw(st.sampled_from(["fin", "rst", "error", "timeout", "none", "fin", "rst"]))
+    event = draw(st.sampled_from(["fin", "rst", "error", "timeout", "timeout", "none", "fin", "rst"]))
     segs = draw(st.one_of(st.just([100000]), st.lists(st.integers(1, 200), min_size=1, max_size=20),
                           st.lists(st.integers(1, 5), min_size=5, max_size=40)))
     write_credit = draw(st.one_of(st.none(), st.none(), st.integers(0, 120)))
@@ -78,7 +78,9 @@ def case_s(draw):
     raise_in = draw(st.sampled_from(["none", "none", "none", "headers", "data", "finish"]))
     # the server itself rejects the message after the delegate has seen the headers
     reject = draw(st.sampled_from(["none", "none", "none", "none", "body_over_limit", "bad_chunk"]))
-    return dict(raise_in=raise_in, reject=reject, framing=framing, body=body, chunks=chunks, layer=layer, hdr_async=hdr_async, data_async=data_async,
+    # the body timeout comes from the server configuration or is installed per request by the delegate
+    timeout_via = draw(st.sampled_from(["server", "request"]))
+    return dict(raise_in=raise_in, reject=reject, timeout_via=timeout_via, framing=framing, body=body, chunks=chunks, layer=layer, hdr_async=hdr_async, data_async=data_async,
                 respond=respond, where=where, frac=frac, event=event, segs=segs, write_credit=write_credit,
                 resp_size=resp_size, chunk_size=chunk_size, cut=None)
 
@@ -172,6 +174,8 @@ def run_scenario(case):
             if case["respond"] == "in_headers":
                 # the application answers before the request has been read completely
                 respond(self.conn)
+            if case["event"] == "timeout" and case.get("timeout_via") == "request":
+                self.conn.set_body_timeout(5.0)
             return gate(case["hdr_async"])
 
         def data_received(self, chunk):
@@ -265,7 +269,7 @@ def run_scenario(case):
 
     async def scenario():
         kw = {}
-        if case["event"] == "timeout":
+        if case["event"] == "timeout" and (case.get("timeout_via", "server") == "server" or case["layer"] != "raw"):
             kw["body_timeout"] = 5.0
         if case["chunk_size"]:
             kw["chunk_size"] = case["chunk_size"]
@@ -384,7 +388,19 @@ def run_case(ctx, case):
     if cut >= total and case["event"] != "none" and pending:
         labels.add("crash_in_response_phase_pending")
     if case["event"] == "timeout" and inside_body:
+        # the body timeout must itself end the request: the delegate is told and the connection closed when the
+        # deadline passes, not only when the server is shut down later (observed before close_all_connections)
+        if case["hdr_async"] != "hold" and case["data_async"] != "hold" and case.get("raise_in", "none") == "none" \
+                and case["respond"] not in ("in_headers", "in_data") and not rejected:
+            mid = out["mid"]
+            mrec = [r for r in mid["records"] if r["headers"]]
+            if not mid["closed"] or not mrec or mrec[0]["close"] != 1:
+                ctx.fail("C05.body_timeout_did_not_end_the_request",
+                         dict(info, closed_after_deadline=mid["closed"],
+                              records_after_deadline=[(r["headers"], r["finish"], r["close"]) for r in mid["records"]]))
         labels.add("timeout")
+        if case.get("timeout_via") == "request" and case["layer"] == "raw":
+            labels.add("timeout_set_per_request")
     if started and started[0]["close"]:
         labels.add("outcome:close")
     if started and started[0]["finish"]:
